@@ -2,7 +2,7 @@
 (* C14.  Session state: next (the next code point that must be reported, so the *)
 (* events cover 0..1114111 exactly once, in order), map (the observed           *)
 (* non-identity entries), nonfixed (ASCII characters that are not fixed         *)
-(* points).  Event kinds: cp, run, str, u10.                                    *)
+(* points).  Event kinds: cp, run, str, u10, u11.                                   *)
 EXTENDS Clean, TLC, Json, IOUtils
 
 Trace == ndJsonDeserialize(IOEnv.TRACE_FILE)
@@ -21,12 +21,18 @@ C9(e) == e.kind = "str" => e.out = CleanSpec(map, e.s, e.del)                 \*
 C7(e) == e.kind = "str" => \A i \in 1..Len(e.out) : \A j \in 1..Len(e.del) : e.out[i] # e.del[j]
 C8(e) == e.kind = "str" => e.out2 = e.out                                     \* cleaning twice = once
 C10(e) == e.kind = "u10" => (IsStrRet(e.r0) => (IsStrRet(e.r1) /\ e.r1.v = e.r0.v))
+(* module-level clean-up (a format's own translation table, e.g. eg.tn's Arabic-Indic digits): the foreign character  *)
+(* e.ch put in the place of digit e.d of a valid number.  When the number is still accepted with the same result -- and *)
+(* simply dropping that position would NOT have given the same result -- the character was turned into digit d, which  *)
+(* is allowed only if Unicode assigns it that decimal value (e.dec; -1 = none)                                         *)
+C11(e) == e.kind = "u11" => ((IsStrRet(e.r0) /\ IsStrRet(e.r1) /\ e.r1.v = e.r0.v /\ ~(IsStrRet(e.rdel) /\ e.rdel.v = e.r0.v))
+                              => e.dec = e.d - 48)
 (* the clean-up table the library declares (source -> ASCII target) is what clean() applies, alone and in context *)
 T1(e) == e.kind = "tab" => (e.alone = <<e.tgt>> /\ e.ctx = <<49, e.tgt, 65>> /\ e.twice = <<e.tgt, e.tgt>>)
 Done(e) == e.kind = "end" => next = 1114112
-ClauseNames == <<"Cover", "U1", "U2", "U3", "U4", "U5", "U7", "U8", "U9", "U10", "T1", "Done">>
+ClauseNames == <<"Cover", "U1", "U2", "U3", "U4", "U5", "U7", "U8", "U9", "U10", "U11", "T1", "Done">>
 Clauses(e) == [Cover |-> Cover(e), U1 |-> C1(e), U2 |-> C2(e), U3 |-> C3(e), U4 |-> C4(e), U5 |-> C5(e),
-               U7 |-> C7(e), U8 |-> C8(e), U9 |-> C9(e), U10 |-> C10(e), T1 |-> T1(e), Done |-> Done(e)]
+               U7 |-> C7(e), U8 |-> C8(e), U9 |-> C9(e), U10 |-> C10(e), U11 |-> C11(e), T1 |-> T1(e), Done |-> Done(e)]
 Failing(e) == LET c == Clauses(e) IN SelectSeq(ClauseNames, LAMBDA n : ~c[n])
 
 Init == l = 1 /\ nrej = 0 /\ next = 0 /\ map = <<>> /\ nonfixed = {}
